@@ -13,6 +13,7 @@ use crate::mcp::model::actor_model::{
 };
 use crate::raft::store::{ClientRequest, ClientResponse};
 use crate::sequence::{SequenceRequest, SequenceResult};
+use crate::{user_namespace_privilege, user_no_namespace_permission};
 use actix_multipart::form::tempfile::TempFile;
 use actix_multipart::form::text::Text;
 use actix_multipart::form::MultipartForm;
@@ -25,7 +26,7 @@ use zip::ZipWriter;
 
 /// 查询ToolSpec列表
 pub async fn query_tool_spec_list(
-    _req: HttpRequest,
+    req: HttpRequest,
     request: web::Query<ToolSpecQueryRequest>,
     appdata: web::Data<Arc<AppShareData>>,
 ) -> impl Responder {
@@ -36,6 +37,12 @@ pub async fn query_tool_spec_list(
 
     // 转换查询参数
     let query_param = request.to_query_param();
+    let namespace_privilege = user_namespace_privilege!(req);
+    if !namespace_privilege
+        .check_option_value_permission(&query_param.namespace_id.clone().map(Arc::new), true)
+    {
+        user_no_namespace_permission!(&query_param.namespace_id);
+    }
     // 发送查询请求到MCP Manager
     let cmd = McpManagerReq::QueryToolSpec(query_param);
     match appdata.mcp_manager.send(cmd).await {
@@ -55,7 +62,7 @@ pub async fn query_tool_spec_list(
 
 /// 获取单个ToolSpec
 pub async fn get_tool_spec(
-    _req: HttpRequest,
+    req: HttpRequest,
     web::Query(param): web::Query<ToolSpecParams>,
     appdata: web::Data<Arc<AppShareData>>,
 ) -> impl Responder {
@@ -66,6 +73,10 @@ pub async fn get_tool_spec(
 
     // 构建ToolKey
     let tool_key = param.to_tool_key();
+    let namespace_privilege = user_namespace_privilege!(req);
+    if !namespace_privilege.check_permission(&tool_key.namespace) {
+        user_no_namespace_permission!(&tool_key.namespace);
+    }
 
     // 发送获取请求到MCP Manager
     let cmd = McpManagerReq::GetToolSpec(tool_key);
@@ -97,6 +108,10 @@ pub async fn add_or_update_tool_spec(
     // 验证参数
     if let Err(err) = param.validate() {
         return handle_param_error(err, "ToolSpec create/update parameter validation failed");
+    }
+    let namespace_privilege = user_namespace_privilege!(req);
+    if !namespace_privilege.check_permission(&param.namespace) {
+        user_no_namespace_permission!(&param.namespace);
     }
 
     // 从HttpRequest中提取用户会话信息作为op_user
@@ -153,12 +168,16 @@ pub async fn update_tool_specs(
     }
 
     // 验证每个参数
+    let namespace_privilege = user_namespace_privilege!(req);
     for (index, param) in params.iter().enumerate() {
         if let Err(err) = param.validate() {
             return handle_param_error(
                 anyhow::anyhow!("第{}个参数验证失败: {}", index + 1, err),
                 "ToolSpec batch update parameter validation failed",
             );
+        }
+        if !namespace_privilege.check_permission(&param.namespace) {
+            user_no_namespace_permission!(&param.namespace);
         }
     }
 
@@ -221,7 +240,7 @@ pub async fn update_tool_specs(
 
 /// 删除ToolSpec
 pub async fn remove_tool_spec(
-    _req: HttpRequest,
+    req: HttpRequest,
     appdata: web::Data<Arc<AppShareData>>,
     web::Json(param): web::Json<ToolSpecParams>,
 ) -> impl Responder {
@@ -232,6 +251,10 @@ pub async fn remove_tool_spec(
 
     // 构建ToolKey
     let tool_key = param.to_tool_key();
+    let namespace_privilege = user_namespace_privilege!(req);
+    if !namespace_privilege.check_permission(&tool_key.namespace) {
+        user_no_namespace_permission!(&tool_key.namespace);
+    }
 
     // 构建McpManagerRaftReq::RemoveToolSpec请求
     let raft_req = McpManagerRaftReq::RemoveToolSpec(tool_key.clone());
@@ -260,7 +283,7 @@ pub async fn remove_tool_spec(
 
 /// 批量导出ToolSpec
 pub async fn download_tool_specs(
-    _req: HttpRequest,
+    req: HttpRequest,
     request: web::Query<ToolSpecQueryRequest>,
     appdata: web::Data<Arc<AppShareData>>,
 ) -> impl Responder {
@@ -273,6 +296,12 @@ pub async fn download_tool_specs(
     let mut query_param = request.to_query_param();
     query_param.limit = 100_000;
     query_param.offset = 0;
+    let namespace_privilege = user_namespace_privilege!(req);
+    if !namespace_privilege
+        .check_option_value_permission(&query_param.namespace_id.clone().map(Arc::new), true)
+    {
+        user_no_namespace_permission!(&query_param.namespace_id);
+    }
 
     // 发送查询请求到MCP Manager
     let cmd = McpManagerReq::QueryToolSpec(query_param);
